@@ -1,6 +1,8 @@
 use verif_core::*;
 
+mod enc;
 mod props;
+mod visit;
 
 fn main() {
     install_panic_hook();
